@@ -375,7 +375,7 @@ def run_part(ctx):
                 ctx.add_violations([dict(v, key=v["key"] + ":default-schedule") for v in v0])
                 ctx.log(f"T3 {name}: default schedule already violates: {v0[0]['key']} {str(v0[0]['observed'])[:200]}")
                 continue
-            viols, st = pysched.explore(_body, _check, traced, bound, ctx, setup=_setup, max_execs_per_shard=ctx.pick(400, 40000), max_steps=60000, budget_s=ctx.pick(60, int(__import__("os").environ.get("XV_T3_BUDGET", "50"))))
+            viols, st = pysched.explore(_body, _check, traced, bound, ctx, setup=_setup, max_execs_per_shard=ctx.pick(400, 40000), max_steps=60000, budget_s=ctx.pick(45, int(__import__("os").environ.get("XV_T3_BUDGET", "150"))))
             ctx.add_violations(viols)
             total["executions"] += st.executions
             total["steps"] += st.steps
@@ -391,7 +391,7 @@ def run_part(ctx):
             rtraced = _traced()
             for name in ["!(P)-empty-rc3"] + (["$(P)-one-line-rc3", "!(P)-out-err"] if ctx.thorough else []):
                 _SHAPE = name
-                viols, st = pysched.explore(_body, _check, rtraced, bound + 1, ctx, setup=_setup, max_execs_per_shard=ctx.pick(20000, 400000), max_steps=60000, budget_s=ctx.pick(120, 4500 if name == "!(P)-empty-rc3" else 600))
+                viols, st = pysched.explore(_body, _check, rtraced, bound + 1, ctx, setup=_setup, max_execs_per_shard=ctx.pick(20000, 400000), max_steps=60000, budget_s=ctx.pick(100, 3600 if name == "!(P)-empty-rc3" else 600))
                 ctx.add_violations([dict(v, key=v["key"] + ":reap-alphabet") for v in viols])
                 total["executions"] += st.executions
                 total["steps"] += st.steps
